@@ -29,7 +29,7 @@ EXPLANATION = ('C12: a base file with two watchers and K<=3 edits from {add watc
                'env variable, change graceful_timeout, revert the previous edit, no edit}, each followed by reloadconfig (waiting). ')
 
 EDITS = ('none', 'add_c', 'rm_b', 'np_up', 'np_down', 'cmd', 'env', 'opt', 'revert', 'rm_c', 'np_b_up', 'cmd_b', 'cmd_both',
-         'rm_a_and_b', 'add_c_d', 'np_a_cmd_b', 'np_b_cmd_a', 'bad_b', 'np_b_down')
+         'rm_a_and_b', 'add_c_d', 'np_a_cmd_b', 'np_b_cmd_a', 'bad_b', 'np_b_down', 'add_E', 'rm_E')
 
 
 def render(model):
@@ -60,7 +60,11 @@ def apply_edit(model, e, history):
     import copy
     prev = copy.deepcopy(model)
     m = copy.deepcopy(model)
-    if e == 'add_c':
+    if e == 'add_E':
+        m['Echo'] = {'cmd': 'proge', 'numprocesses': 1, 'graceful_timeout': '0.2'}      # a name with an upper-case letter, added at run time
+    elif e == 'rm_E':
+        m.pop('Echo', None)
+    elif e == 'add_c':
         m['c'] = {'cmd': 'progc', 'numprocesses': 1, 'graceful_timeout': '0.2'}
     elif e == 'rm_b':
         m.pop('b', None)
